@@ -30,7 +30,7 @@ func TestVXReplay(t *testing.T) {
 	}
 	vxrt.TestingT = t
 	var o vxrt.Outcome
-	inapplicable := checkOracles(file)
+	inapplicable := vxCheckOracles(file)
 	for it := 0; it < stress; it++ {
 		if err := vxrt.Begin(file); err != nil {
 			t.Fatal(err)
@@ -54,7 +54,7 @@ func TestVXReplay(t *testing.T) {
 // checkOracles verifies that the environment answers the solver chose can be
 // realised by the real libraries (e.g. that a document the model calls valid
 // YAML really is).
-func checkOracles(file string) string {
+func vxCheckOracles(file string) string {
 	b, _ := os.ReadFile(file)
 	var rp vxrt.Replay
 	json.Unmarshal(b, &rp)
